@@ -140,6 +140,9 @@ class NestedEvent(Event):
                     while elems:
                         done.add(machine.state_cls.separator.join(elems))
                         elems.pop()
+        # a transition that has been executed is not undone by a later state whose transitions were all blocked
+        if done:
+            event_data.result = True
         return event_data.result
 
     def _process(self, event_data):
